@@ -9,6 +9,8 @@ the decoder makes of `t`'s own payload (`packed_pixels`; C19 says what those are
 The tie model ↔ Rust is the `texc` correspondence stream.
 -/
 import MilaModel.Lemmas.TexCtpk
+import MilaModel.Lemmas.TexBch
+import MilaModel.Lemmas.TexCgfx
 
 namespace Mila.Props.C20
 open Mila Mila.Containers Mila.Spec.Tex
@@ -55,6 +57,58 @@ theorem ctpk_prefix_safe (p : Profile) (f : Buf) (texs : List Tex)
     ∀ i t, texs[i]? = some t → cuts k (ctpkPayloadAt f i) t.payload.size = true →
       ∃ e, ctpkRead p (f.extract 0 k) = .err e := by
   obtain ⟨raws, sf, h, _, hhi⟩ := ctpk_full p f texs hc
+  obtain ⟨h1, h2⟩ := reader_prefix k (by omega) h
+  refine ⟨h1, fun i t ht hcut => h2 ?_⟩
+  have := hhi i t ht
+  simp only [cuts, Bool.and_eq_true, decide_eq_true_eq] at hcut
+  omega
+
+/-- **BCH.** A conforming file (compatibility byte ≤ 20 or > 0x20, N2) is read as the packed
+textures, names being the stored UTF-8 strings verbatim. -/
+theorem bch_read_conforming (p : Profile) (f : Buf) (texs : List Tex) (hc : ConformsBch f texs = true) :
+    bchRead p f = .ok (texs.map (unpack p)) := by
+  obtain ⟨raws, sf, h, ha, _⟩ := bch_full p f texs hc
+  exact reader_of_full h ha
+
+/-- **BCH, wrong magic.** Input that does not start with `BCH\0` is rejected with an error. -/
+theorem bch_bad_magic (p : Profile) (f : Buf) (h : f.size < 4 ∨ u32At f 0 ≠ 0x484342) :
+    ∃ e, bchRead p f = .err e := by
+  obtain ⟨e, he⟩ := Containers.bch_bad_magic p f h
+  exact ⟨e, by simp [bchRead, runReader, he]⟩
+
+/-- **BCH, truncation.** -/
+theorem bch_prefix_safe (p : Profile) (f : Buf) (texs : List Tex) (hc : ConformsBch f texs = true)
+    (k : Nat) (hk : k < f.size) :
+    bchRead p (f.extract 0 k) ≠ .panic ∧
+    ∀ i t, texs[i]? = some t → cuts k (bchPayloadAt f i) t.payload.size = true →
+      ∃ e, bchRead p (f.extract 0 k) = .err e := by
+  obtain ⟨raws, sf, h, _, hhi⟩ := bch_full p f texs hc
+  obtain ⟨h1, h2⟩ := reader_prefix k (by omega) h
+  refine ⟨h1, fun i t ht hcut => h2 ?_⟩
+  have := hhi i t ht
+  simp only [cuts, Bool.and_eq_true, decide_eq_true_eq] at hcut
+  omega
+
+/-- **CGFX.** A conforming file is read as the packed textures (DATA → DICT → TXOB chain with
+self-relative offsets), names being the stored UTF-8 strings verbatim. -/
+theorem cgfx_read_conforming (p : Profile) (f : Buf) (texs : List Tex) (hc : ConformsCgfx f texs = true) :
+    cgfxRead p f = .ok (texs.map (unpack p)) := by
+  obtain ⟨raws, sf, h, ha, _⟩ := cgfx_full p f texs hc
+  exact reader_of_full h ha
+
+/-- **CGFX, wrong magic.** Input that does not start with `CGFX` is rejected with an error. -/
+theorem cgfx_bad_magic (p : Profile) (f : Buf) (h : f.size < 4 ∨ u32At f 0 ≠ 0x58464743) :
+    ∃ e, cgfxRead p f = .err e := by
+  obtain ⟨e, he⟩ := Containers.cgfx_bad_magic p f h
+  exact ⟨e, by simp [cgfxRead, runReader, he]⟩
+
+/-- **CGFX, truncation.** -/
+theorem cgfx_prefix_safe (p : Profile) (f : Buf) (texs : List Tex) (hc : ConformsCgfx f texs = true)
+    (k : Nat) (hk : k < f.size) :
+    cgfxRead p (f.extract 0 k) ≠ .panic ∧
+    ∀ i t, texs[i]? = some t → cuts k (cgfxPayloadAt f i) t.payload.size = true →
+      ∃ e, cgfxRead p (f.extract 0 k) = .err e := by
+  obtain ⟨raws, sf, h, _, hhi⟩ := cgfx_full p f texs hc
   obtain ⟨h1, h2⟩ := reader_prefix k (by omega) h
   refine ⟨h1, fun i t ht hcut => h2 ?_⟩
   have := hhi i t ht
